@@ -200,6 +200,64 @@ func C14(c *fw.Ctx) {
 			run("asg", model.Asg("w", P(a.Mk())), model.Print(model.Id("w")))
 		}
 	}
+	// effects of other kinds in the same reading order: each operand of a three-operand context is a
+	// printing probe, a read of a line of stdin with a prompt (the prompt is output, the line consumed
+	// is an effect on the input) or a read without a prompt; every assignment of the three kinds to the
+	// three positions, in every context that has three operand positions
+	{
+		stdin := "l1\nl2\nl3\n"
+		lines := []string{"l1", "l2", "l3"}
+		kinds := []string{"print", "input-prompt", "input-bare", "input-latin-prompt"}
+		type ctx3 struct {
+			name string
+			mk   func(a, b, d *model.N) []*model.N
+		}
+		ctxs := []ctx3{
+			{"concat", func(a, b, d *model.N) []*model.N { return []*model.N{model.Print(model.Bin("+", model.Bin("+", a, b), d))} }},
+			{"concat-right", func(a, b, d *model.N) []*model.N { return []*model.N{model.Print(model.Bin("+", a, model.Grp(model.Bin("+", b, d))))} }},
+			{"array-literal", func(a, b, d *model.N) []*model.N { return []*model.N{model.Print(model.Arr(a, b, d))} }},
+			{"object-literal", func(a, b, d *model.N) []*model.N { return []*model.N{model.Print(model.Obj([]string{"b", "a", "c"}, []*model.N{a, b, d}))} }},
+			{"call-user", func(a, b, d *model.N) []*model.N { return []*model.N{model.Print(model.CallN("g3", a, b, d))} }},
+			{"call-builtin", func(a, b, d *model.N) []*model.N { return []*model.N{model.Print(model.CallN(model.BiAppend, model.Arr(), a, b, d))} }},
+			{"equality-inside-concat", func(a, b, d *model.N) []*model.N {
+				return []*model.N{model.Var("t", model.Obj([]string{"l1", "a"}, []*model.N{model.Arr(model.Num(1)), model.Arr(model.Num(2))})),
+					model.Print(model.Bin("+", a, model.Grp(model.Bin("+", model.Grp(model.Bin("==", b, d)), model.Str("")))))}
+			}},
+			{"declaration-list", func(a, b, d *model.N) []*model.N {
+				return []*model.N{model.VarList([]string{"x1", "x2", "x3"}, []*model.N{a, b, d}), model.Print(model.Arr(model.Id("x1"), model.Id("x2"), model.Id("x3")))}
+			}},
+			{"logical", func(a, b, d *model.N) []*model.N { return []*model.N{model.Print(model.Log("||", model.Log("&&", a, b), d))} }},
+			{"statements", func(a, b, d *model.N) []*model.N { return []*model.N{model.Print(a), model.Print(b), model.Print(d)} }},
+		}
+		mkOperand := func(kind string, pos int) *model.N {
+			t := fmt.Sprintf("T%d", pos)
+			switch kind {
+			case "print":
+				return model.CallN("p", model.Str(t), model.Str("v"+t))
+			case "input-prompt":
+				return model.CallN(model.BiInput, model.Str(t+"? "))
+			case "input-latin-prompt":
+				return model.CallN(model.BiInputLatin, model.Str(t+"? "))
+			}
+			return model.CallN(model.BiInput)
+		}
+		for _, cx := range ctxs {
+			for code := 0; code < len(kinds)*len(kinds)*len(kinds); code++ {
+				if !c.Mine() {
+					continue
+				}
+				k1, k2, k3 := kinds[code%len(kinds)], kinds[code/len(kinds)%len(kinds)], kinds[code/len(kinds)/len(kinds)]
+				prog := append(c14Prelude(), model.Fun("g3", []string{"a", "b", "d"}, model.Print(model.Str("in-g3")), model.Return(model.Arr(model.Id("d"), model.Id("b"), model.Id("a")))))
+				prog = append(prog, cx.mk(mkOperand(k1, 1), mkOperand(k2, 2), mkOperand(k3, 3))...)
+				prog = append(prog, model.Print(model.Str("end")))
+				_, _, skipped := judge(c, prog, judgeOpts{Stdin: stdin, Lines: lines, SigPrefix: "effect-kinds|" + cx.name, NoPrompt: true, NoTwice: true})
+				if !skipped {
+					c.R.States++
+					c.R.Transitions++
+				}
+			}
+		}
+	}
 	// calls, literals, index, stores: operands over a 5-value pool
 	small := []pval{vals[6], vals[2], vals[4], vals[0], vals[11]}
 	if !c.Quick() {
